@@ -336,3 +336,197 @@ pub fn ref_resolves(doc: &serde_json::Value, r: &str) -> bool {
     let Some(ptr) = r.strip_prefix('#') else { return false };
     doc.pointer(ptr).is_some()
 }
+
+// ---------------------------------------------------------------------------
+// Parameter / tag validation (C02 `pv` stream)
+
+#[derive(Clone, Debug)]
+pub enum Shape {
+    /// single instance type; `plain` = no array/object validation attached
+    Typed(char, bool),
+    Sub(char, Vec<Shape>),
+    Ref(String),
+    ArrayOf(Box<Shape>),
+    Other,
+}
+
+impl Shape {
+    pub fn enc(&self) -> String {
+        match self {
+            Shape::Typed(t, p) => format!("t{}{}", t, *p as u8),
+            Shape::Sub(k, subs) => {
+                let inner: Vec<String> = subs.iter().map(|s| s.enc()).collect();
+                format!("S{}({})", k, inner.join(","))
+            }
+            Shape::Ref(n) => format!("R{}", n),
+            Shape::ArrayOf(i) => format!("A({})", i.enc()),
+            Shape::Other => "X".to_string(),
+        }
+    }
+
+    pub fn schema(&self) -> schemars::schema::Schema {
+        use schemars::schema::*;
+        match self {
+            Shape::Typed(t, plain) => {
+                let it = match t {
+                    'b' => InstanceType::Boolean,
+                    'n' => InstanceType::Number,
+                    's' => InstanceType::String,
+                    'i' => InstanceType::Integer,
+                    'a' => InstanceType::Array,
+                    'o' => InstanceType::Object,
+                    _ => InstanceType::Null,
+                };
+                let mut o = SchemaObject { instance_type: Some(it.into()), ..Default::default() };
+                if !*plain {
+                    o.object = Some(Box::new(ObjectValidation::default()));
+                }
+                o.into()
+            }
+            Shape::Sub(k, subs) => {
+                let v: Vec<Schema> = subs.iter().map(|s| s.schema()).collect();
+                let mut sv = SubschemaValidation::default();
+                match k {
+                    'a' => sv.all_of = Some(v),
+                    'y' => sv.any_of = Some(v),
+                    _ => sv.one_of = Some(v),
+                }
+                SchemaObject { subschemas: Some(Box::new(sv)), ..Default::default() }.into()
+            }
+            Shape::Ref(n) => SchemaObject {
+                reference: Some(format!("#/components/schemas/{}", n)),
+                ..Default::default()
+            }
+            .into(),
+            Shape::ArrayOf(item) => SchemaObject {
+                instance_type: Some(InstanceType::Array.into()),
+                array: Some(Box::new(ArrayValidation {
+                    items: Some(SingleOrVec::Single(Box::new(item.schema()))),
+                    ..Default::default()
+                })),
+                ..Default::default()
+            }
+            .into(),
+            Shape::Other => Schema::Bool(true),
+        }
+    }
+}
+
+#[derive(Clone, Debug)]
+pub struct PvParam {
+    pub loc: char, // p | q
+    pub name: String,
+    pub shape: Shape,
+}
+
+pub struct PvCase {
+    pub policy: char, // n(any) | a(atLeastOne) | e(exactlyOne)
+    pub allow_other: bool,
+    pub defined: Vec<String>,
+    pub visible: bool,
+    pub tags: Vec<String>,
+    pub path: String,
+    pub deps: Vec<(String, Shape)>,
+    pub params: Vec<PvParam>,
+}
+
+fn join_or_dash(v: &[String]) -> String {
+    if v.is_empty() {
+        "-".to_string()
+    } else {
+        v.join(",")
+    }
+}
+
+impl PvCase {
+    pub fn enc(&self) -> String {
+        let deps: Vec<String> = self.deps.iter().map(|(n, s)| format!("{}={}", n, s.enc())).collect();
+        let params: Vec<String> =
+            self.params.iter().map(|p| format!("{}:{}:{}", p.loc, p.name, p.shape.enc())).collect();
+        format!(
+            "{} {} {} {} {} {} {} {} {} {}",
+            self.policy,
+            self.allow_other as u8,
+            join_or_dash(&self.defined),
+            self.visible as u8,
+            join_or_dash(&self.tags),
+            hex(self.path.as_bytes()),
+            self.deps.len(),
+            if deps.is_empty() { "-".to_string() } else { deps.join(" ") },
+            self.params.len(),
+            if params.is_empty() { "-".to_string() } else { params.join(" ") },
+        )
+    }
+
+    /// Run the real `register` and classify the outcome.
+    pub fn run(&self) -> String {
+        use dropshot::{EndpointTagPolicy, TagConfig, TagDetails};
+        let mut ep = ApiEndpoint::new_for_types::<(), Result<HttpResponseOk<()>, HttpError>>(
+            "op".to_string(),
+            http::Method::GET,
+            "application/json",
+            &self.path,
+            R::all(),
+        );
+        ep.visible = self.visible;
+        ep.tags = self.tags.clone();
+        let mut deps = indexmap::IndexMap::new();
+        for (n, s) in &self.deps {
+            deps.insert(n.clone(), s.schema());
+        }
+        for p in &self.params {
+            ep.parameters.push(ApiEndpointParameter::new_named(
+                &if p.loc == 'p' { ApiEndpointParameterLocation::Path } else { ApiEndpointParameterLocation::Query },
+                p.name.clone(),
+                None,
+                true,
+                hooks::ApiSchemaGenerator::Static { schema: Box::new(p.shape.schema()), dependencies: deps.clone() },
+                vec![],
+            ));
+        }
+        let mut tags = std::collections::HashMap::new();
+        for t in &self.defined {
+            tags.insert(t.clone(), TagDetails { description: None, external_docs: None });
+        }
+        let cfg = TagConfig {
+            allow_other_tags: self.allow_other,
+            policy: match self.policy {
+                'a' => EndpointTagPolicy::AtLeastOne,
+                'e' => EndpointTagPolicy::ExactlyOne,
+                _ => EndpointTagPolicy::Any,
+            },
+            tags,
+        };
+        let res = catch(std::panic::AssertUnwindSafe(|| {
+            let mut api = ApiDescription::<StubContext>::new().tag_config(cfg);
+            api.register(ep)
+        }));
+        match res {
+            Ok(Ok(())) => "ok".to_string(),
+            Ok(Err(e)) => {
+                let m = e.message();
+                let kind = if m.contains("At least one tag") {
+                    "tagAtLeastOne"
+                } else if m.contains("Exactly one tag") {
+                    "tagExactlyOne"
+                } else if m.contains("Invalid tag") {
+                    "tagInvalid"
+                } else if m.contains("path parameters are not consumed")
+                    || m.contains("specified parameters do not appear in the path")
+                {
+                    "pathParamsMismatch"
+                } else if m.contains("for both query and path") {
+                    "bothPathAndQuery"
+                } else if m.contains("must have a scalar type") {
+                    "notScalar"
+                } else if m.contains("must be an array of strings") {
+                    "notStringArray"
+                } else {
+                    "other"
+                };
+                format!("err:{}", kind)
+            }
+            Err(p) => format!("panic:{}", classify_refusal(&p)),
+        }
+    }
+}
